@@ -222,6 +222,11 @@ class Builder:
         if k == 'merge':
             return c.Merge(*[self.layer(p) for p in d['parts']])
         if k == 'join':
+            if d.get('key_prefix'):
+                from connectome.layers.join import _maybe_to_hash_id
+                prefix = d['key_prefix']
+                return c.Join(self.layer(d['left']), self.layer(d['right']), d['on'], how=d.get('how', 'inner'),
+                              to_key=lambda values: prefix + _maybe_to_hash_id(values))
             return c.Join(self.layer(d['left']), self.layer(d['right']), d['on'], how=d.get('how', 'inner'))
         if k == 'chain':
             layers = [self.layer(x) for x in d['layers']]
